@@ -16,8 +16,20 @@ def resolver(w, f1, f2):
     rec = []
     for f in (f1, f2):
         f.seek(0)
-        rec.append((f.side, f.path, f.read()))
+        data = f.read()
         f.seek(0)
+        actual = None
+        known = None
+        believed = None     # does the hash the engine holds for this side describe the bytes the side holds now?
+        try:
+            o = w.provs[f.side]._mock_fs.get(f.info.oid)
+            actual = o.contents if (o is not None and o.exists) else None
+            known = getattr(w, "intake_snapshot", ({}, {}))[f.side].get(f.info.oid)
+            if actual is not None:
+                believed = f.info.hash == w.provs[f.side].hash_data(io.BytesIO(actual))
+        except Exception:
+            pass
+        rec.append((f.side, f.path, data, actual, known, believed))
     w.resolver_calls.append(rec)
     loc = f1 if f1.side == 0 else f2
     rem = f1 if f1.side == 1 else f2
